@@ -106,13 +106,13 @@ impl Scenario for C08 {
     }
     fn runs(&self, tier: Tier) -> u64 {
         match tier {
-            Tier::Quick => 250_000,
-            Tier::Thorough => 25_000_000,
+            Tier::Quick => 150_000,
+            Tier::Thorough => 20_000_000,
         }
     }
     fn log_runs(&self, tier: Tier) -> u64 {
         match tier {
-            Tier::Quick => 30_000,
+            Tier::Quick => 15_000,
             Tier::Thorough => 1_000_000,
         }
     }
@@ -163,14 +163,14 @@ impl Scenario for C10 {
     }
     fn runs(&self, tier: Tier) -> u64 {
         match tier {
-            Tier::Quick => 100_000,
-            Tier::Thorough => 10_000_000,
+            Tier::Quick => 400_000,
+            Tier::Thorough => 20_000_000,
         }
     }
     fn log_runs(&self, tier: Tier) -> u64 {
         match tier {
-            Tier::Quick => 10_000,
-            Tier::Thorough => 500_000,
+            Tier::Quick => 40_000,
+            Tier::Thorough => 1_000_000,
         }
     }
     fn one_run(&self, seed: u64, run: u64, tier: Tier, st: &mut Stats) -> (RunResult, Option<J>) {
@@ -299,6 +299,68 @@ impl Scenario for Slice {
     }
 }
 
+// ------------------------------------------------------------------------------------------ C12
+pub struct C12;
+impl Scenario for C12 {
+    fn prop(&self) -> &'static str {
+        "C12"
+    }
+    fn runs(&self, tier: Tier) -> u64 {
+        match tier {
+            Tier::Quick => 150_000,
+            Tier::Thorough => 6_000_000,
+        }
+    }
+    fn log_runs(&self, tier: Tier) -> u64 {
+        match tier {
+            Tier::Quick => 15_000,
+            Tier::Thorough => 300_000,
+        }
+    }
+    fn one_run(&self, seed: u64, run: u64, tier: Tier, st: &mut Stats) -> (RunResult, Option<J>) {
+        let (r, c) = crate::scen_fibex::one_run(seed, run, tier, st);
+        (r, c.map(|c| c.to_json()))
+    }
+    fn eval(&self, case: &J) -> Vec<Violation> {
+        crate::scen_fibex::eval(&crate::scen_fibex::FibexCase::from_json(case))
+    }
+    fn minimise(&self, case: &J, sig: &str) -> J {
+        crate::scen_fibex::minimise(&crate::scen_fibex::FibexCase::from_json(case), sig).to_json()
+    }
+    fn sample(&self, seed: u64, run: u64, tier: Tier) -> J {
+        let mut st = Stats::default();
+        let case = crate::scen_fibex::generate(seed, run, tier, &mut st);
+        let ex = crate::scen_fibex::execute(&case, &mut st);
+        let mut j = case.sample_json();
+        j["answer"] = json!(if ex.model { "model" } else { "refusal" });
+        j["xml_reader_steps"] = json!(ex.steps);
+        j
+    }
+    fn enumerate(&self, tier: Tier, seed: u64, st: &mut Stats) -> Vec<(Violation, J)> {
+        crate::scen_fibex::enumerate_cuts(tier, seed, st).into_iter().map(|(v, c)| (v, c.to_json())).collect()
+    }
+    fn evidence(&self, tier: Tier, seed: u64) -> Evidence {
+        let mut e = ev_base(
+            "C12",
+            tier,
+            seed,
+            "fault_enumeration",
+            "enumeration: EVERY truncation offset 0..=len of the two documents shipped in /repo/tests and of a set of generated documents (<= 16 KiB each) is written to a private directory and loaded with gather_fibex_data (exhaustive per document over cut positions). Seeded runs: shipped or generated documents (namespaced like the samples, 0..30 PDUs, frames with manufacturer extensions, signals, codings, comments, CDATA, entity references, BOM, DOCTYPE, shuffled sections, 1..3 files) damaged by 1..5 faults (truncation, bit flips, byte overwrites, dropped / duplicated blocks, structure-aware deletions of end tags / attributes / BYTE-LENGTH / SEQUENCE-NUMBER / quotes, non-numeric numbers, UTF-16 re-encoding) or by a file-level fault (missing path, empty path list, empty path string, directory, empty file, symlink loop, one file of a set missing). Oracle: returns Some or None, no panic, XML-reader step budget 2*bytes+64 not exhausted. distinct = hash of the file set; non-trivial = at least one fault applied to a document of more than 64 bytes (seeded runs) / cut beyond byte 64 (enumeration).",
+        );
+        e.assumptions = vec![
+            "faults reach this API only as file content at rest: read-level faults (EIO mid-file, short reads) cannot be injected because read_pdu/read_frame are typed to BufReader<File>".into(),
+            "termination is judged in steps of the XML reader (hook verif_hooks); a 120 s wall-clock watchdog is only a backstop".into(),
+            "which of the two answers (model / refusal) a damaged file gets is not judged, only counted".into(),
+        ];
+        e.fault_kinds = vec!["F-TRUNC", "F-FLIP", "F-BYTE", "F-DROP", "F-DUP", "F-NUM", "F-STRUCT", "F-FILE", "F-UTF16"];
+        e.harness_probes = vec!["enumerated_cuts", "enumerated_documents", "doc_shipped", "doc_generated", "F-TRUNC", "F-STRUCT", "F-FILE", "F-NUM", "load_clean"];
+        e.crate_probes = vec!["answer_model", "answer_refusal"];
+        e.step_keys = vec!["xml_steps"];
+        e.exhaustive = false;
+        e
+    }
+}
+
 pub fn all() -> Vec<Box<dyn Scenario>> {
     vec![
         Box::new(Slice(Focus::C03)),
@@ -308,6 +370,7 @@ pub fn all() -> Vec<Box<dyn Scenario>> {
         Box::new(C07),
         Box::new(C08),
         Box::new(C10),
+        Box::new(C12),
         Box::new(Slice(Focus::C16)),
     ]
 }
